@@ -911,6 +911,30 @@ fn gen_merged(r: &mut Rng, n: usize, out: &mut dyn Write) {
                 writeln!(out, "# eq C12 1 2").unwrap();
             }
         }
+        // hand-written timelines whose reported total duration changes after they were merged / handed to an animator (harness-only
+        // `x…` ops): the merge's aggregate timing and the animator's is_ended must follow what the components report *now*
+        if ncomp > 0 && r.chance(1, 3) {
+            let cs: Vec<String> = (0..ncomp).map(|c| (10 + c).to_string()).collect();
+            writeln!(out, "xdyn 60 {} {}", ncomp, cs.join(" ")).unwrap();
+            let report = |out: &mut dyn Write| {
+                writeln!(out, "xmeta 60").unwrap();
+                for c in 0..ncomp { writeln!(out, "xmetac 60 {}", c).unwrap(); }
+                writeln!(out, "# merged-meta C12 {} {}", ncomp + 1, ncomp).unwrap();
+            };
+            report(out);
+            writeln!(out, "xanim 61 60 {}", vals_line(r, shape, true).join(" ")).unwrap();
+            for round in 0..3 {
+                let which = r.below(ncomp as u64);
+                let extra = if round == 2 { 0.0 } else { r.pick(&[0.5f32, 2.0, 8.0, 64.0, 1024.0]) };
+                writeln!(out, "xextra 60 {} {}", which, b(extra)).unwrap();
+                report(out);
+                for dt in [0.0f32, r.pick(&[0.25f32, 1.0, 4.0, 16.0, 128.0])] {
+                    writeln!(out, "xadv 61 {}", b(dt)).unwrap();
+                    for c in 0..ncomp { writeln!(out, "xmetac 60 {}", c).unwrap(); }
+                    writeln!(out, "# endediff C07 {} {}", ncomp + 1, ncomp).unwrap();
+                }
+            }
+        }
         // a reordered merge (disjoint property sets => same results)
         let mut perm: Vec<usize> = (0..ncomp).collect();
         r.shuffle(&mut perm);
